@@ -111,6 +111,14 @@ Theorem C03_accept_deliver : forall open H hs_step is_client (st : rx H) r k p,
    else open (rkey is_client k) (rec_nonce is_client k r) (rec_aad r) (rec_body r)) = Some p.
 Proof. exact deliver_only_authentic. Qed.
 
+(* ... and without assuming keys: before keys exist nothing at all reaches the upper layer, and an epoch-0
+   (plaintext) record never does, in any state *)
+Theorem C03_deliver_needs_keys : forall open H hs_step is_client (st : rx H) r p,
+  In p (rs_out H (record_step open H hs_step is_client st r)) ->
+  exists k, rx_keys st = Some k /\ r_type r = ContentType_ApplicationData /\ r_epoch r <> RX_PLAIN_EPOCH /\
+            rec_open open is_client k r = Some p.
+Proof. exact deliver_needs_keys. Qed.
+
 (* C03_accept, part 2: an Alert record changes the receiver (state, keys, anything) only if it
    authenticates, and then the only change is state := Closed *)
 Theorem C03_accept_alert : forall open H hs_step is_client (st : rx H) r k,
